@@ -156,7 +156,7 @@ def run_random(ctx, i, replay=None):
     k = i % 4
     if k == 0:
         # unicode / long strings
-        pool = 'ab \t"\'\\\néЖ中\U0001f600/*#-0{}'
+        pool = 'ab \t"\'\\\néЖ中\U0001f600/*#-0{}' + 'e\u0301\u0323\u212b\u2126\u1100\u1161\uf900\ufb01'   # + text that is not in Unicode normal form C
         n = r.choice([1, 2, 5, 9, 30, 200])
         s = ''.join(r.choice(pool) for _ in range(n))
         s = s.rstrip('\\')
